@@ -479,6 +479,28 @@ bool is_empty(const FA& a) {
 	while (!w.empty()) { long q = w.back(); w.pop_back(); if (a.finals.count(q)) return false; for (const Edge& e : a.edges) if (e.src == q && seen.insert(e.dst).second) w.push_back(e.dst); }
 	return true;
 }
+Rel fwd_sim(const FA& a, const std::set<long>& dom) {
+	std::map<long, std::map<std::string, std::set<long>>> post;
+	for (const Edge& e : a.edges) post[e.src][e.sym].insert(e.dst);
+	Rel r;
+	for (long p : dom) for (long q : dom) if (!a.finals.count(p) || a.finals.count(q)) r.insert(std::make_pair(p, q));
+	bool changed = true;
+	while (changed) {
+		changed = false;
+		for (auto it = r.begin(); it != r.end();) {
+			long p = it->first, q = it->second; bool ok = true;
+			auto pp = post.find(p);
+			if (pp != post.end()) for (auto& sy : pp->second) {
+				const std::set<long>* qs = nullptr; auto qq = post.find(q); if (qq != post.end()) { auto z = qq->second.find(sy.first); if (z != qq->second.end()) qs = &z->second; }
+				for (long p2 : sy.second) { bool m = false; if (qs) for (long q2 : *qs) if (r.count(std::make_pair(p2, q2))) { m = true; break; } if (!m) { ok = false; break; } }
+				if (!ok) break;
+			}
+			if (!ok) { it = r.erase(it); changed = true; } else ++it;
+		}
+	}
+	return r;
+}
+
 bool accepts(const FA& a, const std::vector<std::string>& w) {
 	std::set<long> cur(a.starts);
 	for (const std::string& s : w) { std::set<long> nx; for (const Edge& e : a.edges) if (e.sym == s && cur.count(e.src)) nx.insert(e.dst); cur.swap(nx); }
